@@ -69,6 +69,24 @@ BlockTab ==
                   D("GET", <<"pkitsid">>, "", FALSE, "", ""), D("RESP", <<"any">>, "", FALSE, "", "200") >>,                   \* the same in one block
    \* two path parameters that differ in letter case only
    idID  |-> << D("GET", <<"pidID">>, "", FALSE, "", ""), D("RESP", <<"any">>, "", FALSE, "", "200") >>,
+   \* a Description whose text is wrongly parenthesised (rejected on the first line of the text, wherever the layout puts it)
+   descBad |-> << D("GET", <<"pnb">>, "", FALSE, "", ""), D("Description", <<>>, "", FALSE, "dbad", ""), D("RESP", <<"any">>, "", FALSE, "", "200") >>,
+   \* inheritance through a nested object: @nA inherits from @nB, whose property n inherits from @nC
+   tnA   |-> << D("TYPE", <<"@nA">>, "", FALSE, "nA", "") >>,
+   tnB   |-> << D("TYPE", <<"@nB">>, "", FALSE, "nB", "") >>,
+   tnC   |-> << D("TYPE", <<"@nC">>, "", FALSE, "nC", "") >>,
+   \* paths with "." segments (stand-alone method, URL with a method, JSON-RPC)
+   dotP  |-> << D("GET", <<"pdot">>, "", FALSE, "", ""), D("RESP", <<"any">>, "", FALSE, "", "200") >>,
+   dotX  |-> << D("URL", <<"pdotx">>, "", FALSE, "", ""), D("POST", <<>>, "", FALSE, "", ""), D("RESP", <<"any">>, "", FALSE, "", "200") >>,
+   dotD  |-> << D("URL", <<"pdd">>, "", FALSE, "", ""), D("Protocol", <<"json-rpc-2.0">>, "", FALSE, "", ""), D("Method", <<"dots">>, "", FALSE, "", ""),
+                D("Params", <<>>, "", FALSE, "obj", "") >>,
+   \* parameter names that look like a user type / that hold characters beyond letters and digits
+   atP   |-> << D("GET", <<"pat">>, "", FALSE, "", ""), D("RESP", <<"any">>, "", FALSE, "", "200") >>,
+   exP   |-> << D("PUT", <<"pex">>, "", FALSE, "", ""), D("RESP", <<"any">>, "", FALSE, "", "200") >>,
+   \* annotations with white space that is not ASCII (no-break space, ideographic space, line separator, next line): they
+   \* are part of the text ("\\xNN" stands for the raw byte, written by the harness)
+   annU  |-> << D("GET", <<"pnb">>, "list\\xC2\\xA0all\\xE3\\x80\\x80the\\xE2\\x80\\xA8cats", FALSE, "", ""),
+                D("RESP", <<"any">>, "fine\\xC2\\x85then", FALSE, "", "200") >>,
    \* two OperationId directives with different ids on one method (rejected: the second one)
    opid2 |-> << D("GET", <<"pop2">>, "", FALSE, "", ""), D("OperationId", <<"opA">>, "", FALSE, "", ""), D("OperationId", <<"opB">>, "", FALSE, "", ""),
                 D("RESP", <<"any">>, "", FALSE, "", "200") >>,
